@@ -1916,8 +1916,8 @@ class Transaction(object):
 
         Wrapper for the append method of the Output class.
 
-        :param value: Value of output in the smallest denominator of currency, for example satoshi's for bitcoins
-        :type value: int
+        :param value: Value of output in the smallest denominator of currency, for example satoshi's for bitcoins, or as Value object
+        :type value: int, Value
         :param address: Destination address of output. Leave empty to derive from other attributes you provide.
         :type address: str, Address
         :param public_hash: Hash of public key or script
@@ -1947,6 +1947,9 @@ class Transaction(object):
         lock_script = to_bytes(lock_script)
         if output_n is None:
             output_n = len(self.outputs)
+        if isinstance(value, Value):
+            # float() and int() of a Value object are in main units (BTC), the output needs the smallest unit
+            value = value_to_satoshi(value, network=self.network)
         if not float(value).is_integer():
             raise TransactionError("Output must be of type integer and contain no decimals")
         if lock_script.startswith(b'\x6a'):
